@@ -40,7 +40,6 @@ type sizeSpec struct {
 	violIf func(lo, hi int) (viol, known bool) // order classes: 0 m<b, 1 m=b, 2 m>b, -1 not compared
 }
 
-func tri(cond, known bool) (bool, bool) { return cond, known }
 
 var sizeSpecs = map[string]sizeSpec{
 	"to": {two: true, violIf: func(lo, hi int) (bool, bool) {
